@@ -110,6 +110,10 @@ def job(j):
         f2 = dict(functions)
         f2[n] = replace_rule(functions[n])
         attempt("reform", {"kind": "function", "id": n}, functions=f2)
+    # the documented list form of a function reform: [environment functions, user function]
+    n = rnd.choice(rules)
+    attempt("reform", {"kind": "function", "id": n, "form": "list"}, functions=[functions, {n: replace_rule(functions[n])}])
+    attempt("same", {"kind": "baseline-after-list-form-reform", "id": n})
     # identical copies change nothing
     attempt("same", {"kind": "deepcopy-params", "id": ""}, params=copy.deepcopy(params))
     n = rnd.choice(rules)
